@@ -66,6 +66,11 @@ def _truediv(a, b):
 def _band(a, b):
     if isinstance(a, (bool, SBool)) and isinstance(b, (bool, SBool)):
         return a & b
+    # integer & boolean: only bit 0 survives
+    if isinstance(a, int) and isinstance(b, SBool):
+        return ite(b, a & 1, 0)
+    if isinstance(b, int) and isinstance(a, SBool):
+        return ite(a, b & 1, 0)
     raise Unsupported('bitwise_and on symbolic integers')
 
 
